@@ -879,6 +879,12 @@ class Interp:
 
     def havoc_var(self, name, hint):
         cur = self.env.get(name)
+        if isinstance(cur, PRec) and self.contract is not None:
+            # an object parameter: only what the contract allows the function to modify can change in a loop
+            from .contracts import havoc_paths
+            paths = [m for m in self.contract.modifies if m.strip() == name or m.strip().startswith(name + '.')]
+            havoc_paths(self, self.env, paths, f'{name}_{hint}')
+            return
         new = self.havoc_value(cur, f'{name}_{hint}')
         if new is not cur:
             self.env[name] = new
@@ -886,6 +892,8 @@ class Interp:
     def havoc_value(self, cur, hint):
         if cur is None or isinstance(cur, (bool, int, str)):
             cur = self.z(cur)
+        if z3.is_expr(cur) and cur.sort() == S.RECORDS.get('RuleResultR') and 'Outcome' in S.UNIONS:
+            return self.p.fresh(hint, S.UNIONS['Outcome'])
         if z3.is_expr(cur):
             return self.p.fresh(hint, cur.sort())
         if isinstance(cur, ArrList):
@@ -911,6 +919,9 @@ class Interp:
             return PyTuple([self.havoc_value(x, f'{hint}_{i}') for i, x in enumerate(cur.items)])
         if isinstance(cur, (Closure, BoundMeth, PyConst, Opaque, SetLit, FuncVal)):
             return cur
+        if isinstance(cur, ExcV) and 'Outcome' in S.UNIONS:
+            # a local that holds "a rule result or a remembered failure"
+            return self.p.fresh(hint, S.UNIONS['Outcome'])
         self.oos(f'cannot havoc {type(cur).__name__}')
 
     def spec_eval(self, text: str, extra: dict | None = None):
@@ -1142,6 +1153,14 @@ class Interp:
             return (lambda: self.env[name]), (lambda v: self.env.__setitem__(name, v))
         if isinstance(node, ast.Attribute):
             obj = self.ev(node.value)
+            if isinstance(obj, PRec) and node.attr not in obj.f:
+                prop = self.find_property(obj, node.attr)
+                if prop is not None:
+                    body = [b for b in prop.fn.body if not (isinstance(b, ast.Expr) and isinstance(b.value, ast.Constant))]
+                    if len(body) == 1 and isinstance(body[0], ast.Return) and body[0].value is not None:
+                        # a read-only property that just names another place:  callstack -> self.states.callstack
+                        sub = self.activation(prop, obj, [], {}, node)
+                        return sub.place(body[0].value)
             return (lambda: self.getattr(obj, node.attr, node)), (lambda v: self.setattr(obj, node.attr, v, node))
         if isinstance(node, ast.Call) and isinstance(node.func, ast.Name) and node.func.id == 'super' and not node.args:
             # super() of a dict/list subclass: the underlying builtin container is `self` itself
@@ -2327,7 +2346,7 @@ BUILTINS = {
     'len', 'isinstance', 'bool', 'int', 'str', 'min', 'max', 'range', 'all', 'any', 'getattr', 'hasattr',
     'callable', 'next', 'iter', 'enumerate', 'abs', 'repr', 'sorted', 'hash', 'issubclass', 'super', 'print', 'id',
     'ord', 'chr', 'zip', 'sum', 'old', 'int_ok', 'uint_ok', 'float_ok', 'implies', 'type', 'dict_with', 'dict_get',
-    'dict_has', 'seq_eq', 'out_ok', 'out_frame', 'out_ret', 'out_cut', 'out_fail_frame', 'exc_inside', 'exc_is', 'boundcall', 'top_only', 'store', 'o_none', 'o_ok', 'same_func', 'ismethod', 'is_func', 'is_ok', 'is_err', 'ok_res', 'is_failure', 'grown', 'memo_ok',
+    'dict_has', 'seq_eq', 'out_ok', 'out_frame', 'out_ret', 'out_cut', 'out_fail_frame', 'exc_inside', 'exc_is', 'boundcall', 'top_only', 'store', 'o_none', 'o_ok', 'same_func', 'ismethod', 'is_func', 'is_ok', 'is_err', 'ok_res', 'is_failure', 'grown', 'memo_ok', 'outcome_ok', 'submap',
 }
 
 
